@@ -564,7 +564,7 @@ class VerifyAttrs(object):
                 declast.check_dimension(dim, metaattrs)
             except RuntimeError:
                 raise RuntimeError("Unable to parse dimension: {} at line {}"
-                                   .format(dim, node.linenumber))
+                                   .format(dim, getattr(node, "linenumber", "?")))
 
 
 class GenFunctions(object):
